@@ -445,6 +445,7 @@ func RunMain(root, id, tier string, self string) int {
 	sort.Strings(keys)
 	newViol := 0
 	knownSeen := 0
+	os.RemoveAll(filepath.Join(root, "replays", id))
 	os.MkdirAll(filepath.Join(root, "replays", id), 0o755)
 	for _, k := range keys {
 		v := merged.Violations[k]
